@@ -67,7 +67,13 @@ static uint32_t v1005, v1006;
 #endif
 #ifdef OD_HBC
 static uint8_t   v1016_0;
-static CO_HBCONS v1016[3];
+/* separate objects, not an array: writes through a computed pointer into an array of
+ * structs degrade to byte-level updates in cbmc (DESIGN.md §3 rule 4) */
+static CO_HBCONS v1016_a, v1016_b, v1016_c;
+static CO_HBCONS * const v1016p[3] = { &v1016_a, &v1016_b, &v1016_c };
+#define v1016 (*v1016q)   /* poison: use V1016(i) */
+#undef v1016
+#define V1016(i) (*v1016p[(i)])
 #endif
 #ifdef OD_PARA
 static CO_PARA  od_para[3];
@@ -160,12 +166,12 @@ static CO_OBJ od[] = {
 #endif
 #ifdef OD_HBC
     { OD_ID(0x1016, 0, CO_OBJ_____R_), CO_THB_CONS, (CO_DATA)&v1016_0 },
-    { OD_ID(0x1016, 1, CO_OBJ_____RW), CO_THB_CONS, (CO_DATA)&v1016[0] },
+    { OD_ID(0x1016, 1, CO_OBJ_____RW), CO_THB_CONS, (CO_DATA)&v1016_a },
 #if OD_HBC_E > 1
-    { OD_ID(0x1016, 2, CO_OBJ_____RW), CO_THB_CONS, (CO_DATA)&v1016[1] },
+    { OD_ID(0x1016, 2, CO_OBJ_____RW), CO_THB_CONS, (CO_DATA)&v1016_b },
 #endif
 #if OD_HBC_E > 2
-    { OD_ID(0x1016, 3, CO_OBJ_____RW), CO_THB_CONS, (CO_DATA)&v1016[2] },
+    { OD_ID(0x1016, 3, CO_OBJ_____RW), CO_THB_CONS, (CO_DATA)&v1016_c },
 #endif
 #endif
     { OD_ID(0x1017, 0, CO_OBJ_____RW), CO_THB_PROD,    (CO_DATA)&v1017 },
